@@ -12,12 +12,13 @@
                 cl call [<method hex> [<params hex>]] | cl subscribe | cl batch <n> | cl regnotif <method hex>
                 | cl notify | cl abandon <op> | cl deliver <text hex> | cl next <op> | cl drop <op>
                 | cl unsub <op> | cl gate open|shut | cl sizes
+  HTTP client:  case <n> httpc <num|str> ; hc batch <n> <reply hex> | hc call <reply hex>
   pure verbs:   wsbatch <num|str> <start> <n> <array hex> | httpbatch <num|str> <start> <n> <array hex>
 -/
 import JrpcVerif.Driver.Codec
 import JrpcVerif.Model.ClientMgr
 namespace Jrpc.Driver
-open Jrpc
+open Jrpc Jrpc.Client
 
 structure ClientSt where
   st : St := St.init 1 false
@@ -26,6 +27,10 @@ structure ClientSt where
   held : List Text := []             -- what it is trying to send
   fcap : Nat := 64                   -- capacity of the front-to-back channel
   halted : Bool := false             -- a fatal error ended the read task
+  -- the HTTP client (`case <n> httpc <num|str>`): only the id allocator is state
+  httpActive : Bool := false
+  httpNext : Nat := 0
+  httpStr : Bool := false
   draining : List ChanId := []       -- streams consumed by `Subscription::unsubscribe`
   active : Bool := false
 
@@ -167,7 +172,36 @@ def clientVerb (cs : ClientSt) (ws : List String) : Option (ClientSt × String) 
         if kind != "num" && kind != "str" then (cs, "bad-op") else
         ({ st := St.init c (kind == "str"), fcap := f, active := true }, "case")
       | _, _ => (cs, "bad-op"))
+  | ["case", _, "httpc", kind] =>
+    some (if kind != "num" && kind != "str" then (cs, "bad-op")
+          else ({ httpActive := true, httpStr := kind == "str" }, "case"))
   | "case" :: _ => none
+  | ["hc", "batch", n, h] =>
+    some (if !cs.httpActive then (cs, "bad-op") else
+      match n.toNat?, unhexText h with
+      | some k, some t =>
+        if k == 0 then (cs, "bad-op") else
+        -- rpc_service.rs: `from_slice::<Vec<Response<_>>>`; any failure is `Error::ParseError`
+        (match elements t with
+         | none => ({ cs with httpNext := cs.httpNext + 1 }, "E:parse")
+         | some es =>
+           if (es.filterMap decodeResponse).length != es.length then ({ cs with httpNext := cs.httpNext + 1 }, "E:parse")
+           else ({ cs with httpNext := cs.httpNext + 1 }, batchResRepr (httpBatch cs.httpNext k (es.filterMap decodeResponse))))
+      | _, _ => (cs, "bad-op"))
+  | ["hc", "call", h] =>
+    some (if !cs.httpActive then (cs, "bad-op") else
+      match unhexText h with
+      | some t =>
+        -- client.rs:441-454
+        (match decodeResponse t with
+         | none => ({ cs with httpNext := cs.httpNext + 1 }, "E:parse")
+         | some r =>
+           match r.payload with
+           | .error e => ({ cs with httpNext := cs.httpNext + 1 }, errObjRepr e)
+           | .result v =>
+             if r.id == mkId cs.httpStr cs.httpNext then ({ cs with httpNext := cs.httpNext + 1 }, s!"ok:{hexText v}")
+             else ({ cs with httpNext := cs.httpNext + 1 }, s!"E:notpending:{hexText (idText r.id)}"))
+      | none => (cs, "bad-op"))
   | ["wsbatch", kind, start, n, h] =>
     some (cs, match parseArr kind start n h with
       | some (_, s, k, rs) => batchResRepr (wsBatch s k rs)
